@@ -42,7 +42,12 @@ pub enum Op {
     DropHeld,
     PushAnchorDefault,
     Register(usize),
+    /// register this many placeholders back to back (lengths 1..3)
+    RegisterMany(usize),
     Backfill(usize),
+    /// backfill_or_panic with a source of the wrong size: must be rejected
+    /// (documented panic); the placeholder then stays pending for good
+    BackfillWrongSize(usize),
     Clear,
     Take,
     Clone,
@@ -68,7 +73,8 @@ pub struct Step {
 struct Pending {
     offset: usize,
     len: usize,
-    backref: Backref,
+    /// None once a rejected backfill_or_panic call swallowed the Backref
+    backref: Option<Backref>,
 }
 
 struct Shadow {
@@ -120,6 +126,9 @@ pub struct RunStats {
     arena_swaps: u64,
     dropped_mid_history: u64,
     unblocked_all: u64,
+    rejected_backfills: u64,
+    max_slices: usize,
+    big_advances: u64,
     max_pending: usize,
     max_live: usize,
     ops: u64,
@@ -500,17 +509,33 @@ pub fn execute(steps: &[Step], pool_data: &[u8], drop_seed: u64, rs: &mut RunSta
                         }
                         let offset = slot.shadow.bytes.len();
                         slot.shadow.bytes.extend_from_slice(&pattern);
-                        slot.shadow.pending.push(Pending { offset, len: *len, backref });
+                        slot.shadow.pending.push(Pending { offset, len: *len, backref: Some(backref) });
                         rs.max_pending = rs.max_pending.max(slot.shadow.pending.len());
                     } else {
                         // empty backref: backfilling it with nothing must be a no-op
                         slot.iov.backfill_or_panic(backref, &[]);
                     }
                 }
+                Op::RegisterMany(k) => {
+                    let slot = &mut slots[t];
+                    for j in 0..*k {
+                        let len = 1 + (j + si) % 3;
+                        let pattern = vec![0xEEu8; len];
+                        let backref = slot.iov.register_patch(&pattern);
+                        if backref.len() != len {
+                            return Err(fail(&["C04"], "backref-len", format!("register_patch({} bytes) returned a Backref of length {}", len, backref.len())));
+                        }
+                        let offset = slot.shadow.bytes.len();
+                        slot.shadow.bytes.extend_from_slice(&pattern);
+                        slot.shadow.pending.push(Pending { offset, len, backref: Some(backref) });
+                    }
+                    rs.max_pending = rs.max_pending.max(slot.shadow.pending.len());
+                }
                 Op::Backfill(which) => {
                     let slot = &mut slots[t];
-                    if !slot.shadow.pending.is_empty() {
-                        let i = which % slot.shadow.pending.len();
+                    let live: Vec<usize> = slot.shadow.pending.iter().enumerate().filter(|(_, p)| p.backref.is_some()).map(|(i, _)| i).collect();
+                    if !live.is_empty() {
+                        let i = live[which % live.len()];
                         if i != 0 {
                             rs.backfill_out_of_order += 1;
                         }
@@ -519,12 +544,29 @@ pub fn execute(steps: &[Step], pool_data: &[u8], drop_seed: u64, rs: &mut RunSta
                         if p.offset < slot.shadow.observed_upto {
                             return Err(fail(&["C04"], "observed-pending", format!("iovec #{}: a pending placeholder at offset {} had already been exposed (observed up to {})", t, p.offset, slot.shadow.observed_upto)));
                         }
-                        slot.iov.backfill_or_panic(p.backref, value);
+                        slot.iov.backfill_or_panic(p.backref.unwrap(), value);
                         slot.shadow.bytes[p.offset..p.offset + p.len].copy_from_slice(value);
                         rs.backfills += 1;
                         if slot.shadow.pending.is_empty() {
                             rs.unblocked_all += 1;
                         }
+                    }
+                }
+                Op::BackfillWrongSize(which) => {
+                    let slot = &mut slots[t];
+                    let live: Vec<usize> = slot.shadow.pending.iter().enumerate().filter(|(_, p)| p.backref.is_some()).map(|(i, _)| i).collect();
+                    if !live.is_empty() {
+                        let i = live[which % live.len()];
+                        let backref = slot.shadow.pending[i].backref.take().unwrap();
+                        let wrong = pool.take(slot.shadow.pending[i].len + 1 + which % 2);
+                        let iov = &mut slot.iov;
+                        let r = catch(|| iov.backfill_or_panic(backref, wrong));
+                        if r.is_ok() {
+                            return Err(fail(&["C04"], "wrong-size-accepted", format!("iovec #{}: backfill_or_panic accepted {} bytes for a {}-byte placeholder", t, wrong.len(), slot.shadow.pending[i].len)));
+                        }
+                        // The Backref is gone: this placeholder can never be
+                        // filled, and must block consumers from now on.
+                        rs.rejected_backfills += 1;
                     }
                 }
                 Op::Clear => {
@@ -618,7 +660,12 @@ pub fn execute(steps: &[Step], pool_data: &[u8], drop_seed: u64, rs: &mut RunSta
                         let p = slot.iov.stable_prefix();
                         (p.iter().map(|s| s.len()).sum(), p.first().map(|s| s.len()).unwrap_or(0))
                     };
+                    let slices_before = slot.iov.len();
+                    rs.max_slices = rs.max_slices.max(slices_before);
                     let got = slot.iov.consumer().advance_slices(*n);
+                    if slices_before - slot.iov.len().min(slices_before) > 1024 {
+                        rs.big_advances += 1;
+                    }
                     let want = (*n).min(stable);
                     if got != want {
                         return Err(fail(if slot.shadow.pending.is_empty() { &["C03"] } else { &["C03", "C04"] }, "advance-ret", format!("iovec #{}: advance_slices({}) returned {} with {} stable bytes", t, n, got, stable)));
@@ -765,16 +812,15 @@ pub fn gen_history(rng: &mut Rng, n: usize, mixk: Mix, small: bool) -> Vec<Step>
         _ => Op::New,
     };
     steps.push(Step { slot: 0, op: init });
-    // weights per mix:            push pushb pushc ext anch pushheld drophld anchdef reg bfill clear take clone drop flush ens tkar swph swpb cons adv pop read rte new
-    let w: [u32; 25] = match mixk {
-        Mix::Pipe =>         [10, 8, 14, 3, 8, 2, 1, 1, 3, 6, 1, 1, 1, 1, 2, 2, 1, 1, 1, 8, 10, 4, 5, 1, 1],
-        Mix::Placeholders => [6, 5, 12, 2, 5, 1, 1, 1, 14, 16, 1, 1, 1, 0, 2, 1, 1, 1, 0, 7, 9, 3, 3, 1, 0],
-        Mix::CloneTake =>    [8, 6, 12, 2, 6, 2, 1, 1, 5, 10, 2, 6, 8, 3, 2, 1, 2, 2, 3, 6, 8, 3, 3, 1, 2],
-        Mix::Arena =>        [6, 5, 14, 2, 12, 4, 3, 2, 3, 6, 1, 2, 3, 2, 7, 5, 4, 4, 4, 6, 8, 3, 3, 1, 3],
+    // weights per mix:            push pushb pushc ext anch pushheld drophld anchdef reg bfill clear take clone drop flush ens tkar swph swpb cons adv pop read rte new bfwrong
+    let w: [u32; 26] = match mixk {
+        Mix::Pipe =>         [10, 8, 14, 3, 8, 2, 1, 1, 3, 6, 1, 1, 1, 1, 2, 2, 1, 1, 1, 8, 10, 4, 5, 1, 1, 0],
+        Mix::Placeholders => [6, 5, 12, 2, 5, 1, 1, 1, 14, 16, 1, 1, 1, 0, 2, 1, 1, 1, 0, 7, 9, 3, 3, 1, 0, 1],
+        Mix::CloneTake =>    [8, 6, 12, 2, 6, 2, 1, 1, 5, 10, 2, 6, 8, 3, 2, 1, 2, 2, 3, 6, 8, 3, 3, 1, 2, 0],
+        Mix::Arena =>        [6, 5, 14, 2, 12, 4, 3, 2, 3, 6, 1, 2, 3, 2, 7, 5, 4, 4, 4, 6, 8, 3, 3, 1, 3, 0],
     };
-    for _ in 0..n {
-        let slot = rng.usize_below(8);
-        let op = match rng.weighted(&w) {
+    let regular = |rng: &mut Rng| -> Op {
+        match rng.weighted(&w) {
             0 => Op::Push(len(rng)),
             1 => Op::PushBorrowed(len(rng)),
             2 => Op::PushCopy(len(rng)),
@@ -820,13 +866,44 @@ pub fn gen_history(rng: &mut Rng, n: usize, mixk: Mix, small: bool) -> Vec<Step>
             21 => Op::PopFront,
             22 => Op::Read(rng.range(0, if small { 300 } else { 3000 })),
             23 => Op::ReadToEnd,
-            _ => match rng.below(3) {
+            24 => match rng.below(3) {
                 0 => Op::New,
                 1 => Op::NewFromHeldArena,
                 _ => Op::NewFromSlices(lens(rng, small), true),
             },
-        };
+            _ => Op::BackfillWrongSize(rng.usize_below(8)),
+        }
+    };
+    let mut produced = 0usize;
+    while produced < n {
+        let slot = rng.usize_below(8);
+        if !small && rng.chance(1, 700) {
+            // More slices than one writev takes (IOV_MAX = 1024), all stable
+            // and too long to be merged, then one advance across them.
+            let k = rng.range(1030, 2300);
+            let lens: Vec<usize> = (0..k).map(|_| rng.range(65, 90)).collect();
+            steps.push(Step { slot, op: Op::Extend(lens) });
+            for _ in 0..rng.range(0, 3) {
+                steps.push(Step { slot, op: regular(rng) });
+            }
+            steps.push(Step { slot, op: Op::Advance(if rng.chance(1, 2) { usize::MAX } else { rng.range(70_000, 200_000) }) });
+            produced += 3;
+            continue;
+        }
+        if !small && rng.chance(1, if mixk == Mix::Placeholders { 120 } else { 900 }) {
+            // Many placeholders in flight at once, filled in random order.
+            let k = rng.range(33, 160);
+            steps.push(Step { slot, op: Op::RegisterMany(k) });
+            for _ in 0..rng.range(20, 220) {
+                let op = if rng.chance(4, 5) { Op::Backfill(rng.usize_below(1 << 12)) } else { regular(rng) };
+                steps.push(Step { slot, op });
+                produced += 1;
+            }
+            continue;
+        }
+        let op = regular(rng);
         steps.push(Step { slot, op });
+        produced += 1;
     }
     steps
 }
@@ -942,6 +1019,9 @@ pub fn run(ctx: &mut Ctx) {
                 ctx.feature_n("iovec.consumption_while_placeholder_pending", rs.consume_while_pending);
                 ctx.feature_n("iovec.observations_with_bytes_blocked_behind_placeholder", rs.blocked_by_pending);
                 ctx.feature_n("iovec.all_placeholders_filled_events", rs.unblocked_all);
+                ctx.feature_n("iovec.rejected_wrong_size_backfills", rs.rejected_backfills);
+                ctx.feature_n("iovec.single_advance_across_more_than_1024_slices", rs.big_advances);
+                ctx.maximum("iovec.max_slices_before_an_advance", rs.max_slices as u64);
                 ctx.feature_n("iovec.held_anchored_slice_pushed_later", rs.held_pushed_elsewhere);
                 ctx.feature_n("iovec.arena_swaps", rs.arena_swaps);
                 ctx.feature_n("iovec.iovec_dropped_mid_history", rs.dropped_mid_history);
@@ -953,6 +1033,9 @@ pub fn run(ctx: &mut Ctx) {
                 }
                 if rs.max_live >= (1 << 20) {
                     ctx.feature("iovec.histories_reaching_1MiB_of_live_arena");
+                }
+                if rs.max_pending >= 32 {
+                    ctx.feature("iovec.histories_with_32_or_more_placeholders_in_flight");
                 }
                 ctx.maximum("iovec.max_pending_placeholders", rs.max_pending as u64);
                 ctx.maximum("iovec.max_live_arena_bytes", rs.max_live as u64);
